@@ -33,6 +33,7 @@ type End struct {
 	segs     [][]byte // inbound segments not yet read
 	queued   int
 	waiting  int   // Read calls blocked for data
+	rcalls   int64 // Read calls so far
 	eof      bool  // peer closed its side: EOF after the queue drains
 	rerr     error // injected / reset: returned by Read at once
 	closed   bool  // this side closed
@@ -70,6 +71,7 @@ func Pipe(nameA, nameB string) (*End, *End) {
 
 func (e *End) Read(p []byte) (int, error) {
 	e.mu.Lock()
+	e.rcalls++
 	for {
 		if e.closed {
 			e.mu.Unlock()
@@ -268,6 +270,14 @@ func (e *End) Queued() int {
 
 // ReaderIdle reports whether a Read of this End is blocked with nothing queued: the reader has
 // consumed everything written so far and has come back for more.
+// Activity is a snapshot of what happened on this End's inbound side: Read calls made, bytes handed to readers,
+// bytes still queued. Two equal snapshots some time apart mean nobody read and nobody wrote in between.
+func (e *End) Activity() [3]int64 {
+	e.mu.Lock()
+	defer e.mu.Unlock()
+	return [3]int64{e.rcalls, e.readTotal, int64(e.queued)}
+}
+
 func (e *End) ReaderIdle() bool {
 	e.mu.Lock()
 	defer e.mu.Unlock()
